@@ -262,6 +262,13 @@ func (r *Run) Count(name string, n int) {
 	r.mu.Unlock()
 }
 
+// Counter returns the current value of a named observation counter.
+func (r *Run) Counter(name string) int64 {
+	r.mu.Lock()
+	defer r.mu.Unlock()
+	return r.counters[name]
+}
+
 // Max keeps the maximum of a named observation.
 func (r *Run) Max(name string, n int) {
 	r.mu.Lock()
